@@ -1,7 +1,6 @@
 package main
 
 import (
-	"hash"
 	"bytes"
 	"context"
 	"crypto"
@@ -10,6 +9,7 @@ import (
 	"crypto/sha512"
 	"errors"
 	"fmt"
+	"hash"
 	"math/rand/v2"
 	"net/http"
 	"strings"
